@@ -163,6 +163,7 @@ FailsGC(e) ==
   ELSE IF e.err # "" THEN <<"decode failed under garbage collection: " \o e.err>>
   ELSE Chk(Len(e.delivered) = Len(e.inputs) /\ FirstDiff(e.inputs, e.delivered, 1) = 0, "a decoded value was damaged by a collection during decoding / in the callback")
        \o Chk(Len(e.after) = Len(e.inputs) /\ FirstDiff(e.inputs, e.after, 1) = 0, "a retained decoded value was damaged by collections after the read")
+       \o Chk(e.xs = e.xsWant, "objects the application hung on decoded values (fields Avro does not map) did not survive the collections: decoded memory is not ordinary Go memory")
 FailsGCWrite(e) ==
   LET r == Dec(e.schema, e.bytes, 1) IN
   Chk(r.ok /\ r.pos = Len(e.bytes) + 1 /\ Rep(e.schema, r.d, e.value, FALSE, "w"), "encoding produced while collections ran is not the encoding of the value")
